@@ -8,7 +8,8 @@ rnd = random.Random(20260925)
 LEAVES = ["u8","u16","u32","u64","u128","usize","i8","i16","i32","i64","i128","isize",
           "bool","char","f32","f64","String","()"]
 KEYS = ["u8","i32","u64","String","char","bool","(u8, String)","Vec<u8>","Option<i32>"]
-DERIVED = ["Named","TupleS","UnitS","GenS<u16>","GenS<String>","SkipS","EnumA","GenE<i64>","GenE<Vec<u8>>","Big"]
+DERIVED = ["Named","TupleS","UnitS","GenS<u16>","GenS<String>","SkipS","EnumA","GenE<i64>","GenE<Vec<u8>>","Big",
+           "SkipTupFirst","SkipTupMid","SkipTupTwo","SkipGenTup<String>","SkipGenTup<Option<u64>>","SkipNamedEnds","SkipEnum"]
 INTERNED = ["Interned<u64>","Interned<String>","Interned<Vec<u8>>","Interned<str>","Interned<[u8]>",
             "Interned<Vec<Interned<String>>>","Interned<Interned<u64>>"]
 # constructor: (template, enc, hash)
